@@ -299,7 +299,11 @@ class Value(ABC):
     def get_symbol(symbol_label, symbol_table):
         if symbol_label not in symbol_table:
             raise ValueError("[{}] not in symbol table".format(symbol_label))
-        return symbol_table[symbol_label]
+        symbol = symbol_table[symbol_label]
+        if symbol.is_expression():
+            # an EQU defined by an expression of other symbols
+            symbol = symbol.resolve(symbol_table)
+        return symbol
 
 
 class NoneValue(Value):
